@@ -384,7 +384,7 @@ fn run_big(id: String, seed: u64, out: &mut CaseOut, op: &OpCell) {
 }
 
 pub fn run(ctx: &mut Ctx) {
-    let ncases = ctx.pick(48u64, 1500);
+    let ncases = ctx.pick(144u64, 1500);
     let nq = ctx.pick(60usize, 80);
     for i in 0..ncases {
         if i >= 48 && ctx.out_of_time() {
